@@ -55,6 +55,15 @@ type Case struct {
 
 const neighbourSession = "session-c02-neighbour"
 
+// ackTimeoutOption: an explicit ack timeout, or no option at all (the library default must stay in force - an explicit 0 would
+// mask a changed default, as it did for seeded change C02/m3 for a while)
+func ackTimeoutOption(ms int) iscp.UpstreamOption {
+	if ms <= 0 {
+		return func(*iscp.UpstreamConfig) {}
+	}
+	return iscp.WithUpstreamAckTimeout(time.Duration(ms) * time.Millisecond)
+}
+
 const perCall = 8 * time.Second
 
 type history struct {
@@ -214,7 +223,7 @@ func run(c Case) (*history, string, *ev.Failure) {
 		defer cancel()
 		up, err = conn.OpenUpstream(ctx, "session-c02", iscp.WithUpstreamQoS(message.QoSReliable), c.Policy.Option(),
 			iscp.WithUpstreamSendDataPointsHooker(rec), iscp.WithUpstreamReceiveAckHooker(rec), iscp.WithUpstreamClosedEventHandler(rec),
-			iscp.WithUpstreamResumedEventHandler(rec), iscp.WithUpstreamCloseTimeout(2*time.Second), iscp.WithUpstreamAckTimeout(time.Duration(c.AckTimeoutMs)*time.Millisecond))
+			iscp.WithUpstreamResumedEventHandler(rec), iscp.WithUpstreamCloseTimeout(2*time.Second), ackTimeoutOption(c.AckTimeoutMs))
 	})
 	if !ok {
 		return nil, "OpenUpstream", nil
